@@ -134,6 +134,17 @@ func (g *Graph) IsReferenced(resourceType ngftypes.ObjectType, nsname types.Name
 	}
 }
 
+// ReferencesServiceInNamespace returns true if the Graph references at least one Service of the Namespace.
+func (g *Graph) ReferencesServiceInNamespace(namespace string) bool {
+	for svcNsName := range g.ReferencedServices {
+		if svcNsName.Namespace == namespace {
+			return true
+		}
+	}
+
+	return false
+}
+
 // IsNGFPolicyRelevant returns whether the NGF Policy is a part of the Graph, or targets a resource in the Graph.
 func (g *Graph) IsNGFPolicyRelevant(
 	policy policies.Policy,
